@@ -18,7 +18,9 @@ contract("parglare.parser.Parser._next_tokens",
          params={"self": "ref[Parser]", "head": "ref[Head]"}, returns="list[ref[Token]]",
          ensures=["fresh(result) or True"], modifies=[], trusted=True,
          note="runs the recognisers of the expected terminals (user code, regular expressions); assumed to leave the "
-              "head untouched; its observable behaviour is the subject of C07's bounded check")
+              "head untouched -- PROVED separately for the configuration without custom token recognition as "
+              "Parser._next_tokens@plain (contracts/scanner.py, empty modifies set), where the remaining trust is that "
+              "recognisers are pure; its observable behaviour is the subject of C07's bounded check")
 
 contract("parglare.parser.Parser._next_token",
          params={"self": "ref[Parser]", "head": "ref[Head]"}, returns="opt[ref[Token]]",
